@@ -383,7 +383,12 @@ class AttributeCollection(MutableMapping[int, Attribute]):
             return attributes
 
         if Attribute.CODE.AS_PATH in attributes and Attribute.CODE.AS4_PATH in attributes:
-            attributes.merge_attributes()
+            if negotiated.asn4:
+                # RFC 6793 section 6: a NEW speaker receiving AS4_PATH from a NEW speaker discards it. Merged,
+                # the route was reported and stored with an AS_PATH the peer never sent as AS_PATH.
+                attributes.remove(Attribute.CODE.AS4_PATH)
+            else:
+                attributes.merge_attributes()
 
         if Attribute.CODE.MP_REACH_NLRI not in attributes and Attribute.CODE.MP_UNREACH_NLRI not in attributes:
             cls.previous = data
